@@ -4,6 +4,7 @@
 package evid
 
 import (
+	"runtime/debug"
 	"encoding/binary"
 	"encoding/json"
 	"flag"
@@ -211,7 +212,7 @@ func (r *Rec) Flush() {
 	}
 	r.mu.Lock()
 	defer r.mu.Unlock()
-	base := fmt.Sprintf("%s.%s.%d", r.Prop, r.Part, Shard())
+	base := fmt.Sprintf("%s.%s.%d.%d", r.Prop, r.Part, Shard(), os.Getpid())
 	hashes := make([]uint64, 0, len(r.nontriv))
 	for h := range r.nontriv {
 		hashes = append(hashes, h)
@@ -252,7 +253,7 @@ func SaveFailure(prop, part string, c any, err error) {
 	}
 	f := Failure{Prop: prop, Part: part, Error: err.Error(), Case: cb}
 	b, _ := json.MarshalIndent(f, "", " ")
-	_ = os.WriteFile(filepath.Join(dir, fmt.Sprintf("%s.%s.%d.fail.json", prop, part, Shard())), b, 0o644)
+	_ = os.WriteFile(filepath.Join(dir, fmt.Sprintf("%s.%s.%d.%d.fail.json", prop, part, Shard(), os.Getpid())), b, 0o644)
 }
 
 var (
@@ -273,6 +274,13 @@ func Register[C any](prop, part string, check func(c C, rec *Rec) error) {
 		}
 		return check(c, New(prop, part, ""))
 	}
+}
+
+// RegisterRaw registers a replay function that receives the raw case.
+func RegisterRaw(prop, part string, fn func(json.RawMessage) error) {
+	regMu.Lock()
+	defer regMu.Unlock()
+	registry[key(prop, part)] = fn
 }
 
 // Replay runs the saved case in file through its part's check, bypassing rapid.
@@ -338,6 +346,9 @@ func Guard(what string, f func() error) (err error) {
 	defer func() {
 		if r := recover(); r != nil {
 			err = fmt.Errorf("PANIC in %s: %v", what, r)
+			if os.Getenv("VERIF_STACK") != "" {
+				err = fmt.Errorf("%w\n%s", err, debug.Stack())
+			}
 		}
 	}()
 	return f()
